@@ -616,7 +616,7 @@ def run_cover(unit, scratch, uws, timeout, mem):
         cmd += ['--sat-solver', 'cadical']
     props = list_properties(gb2, cmd[2:], scratch)
     if props:
-        goals0 = [n0 for n0, d0, sl0 in props if d0.startswith('COVER ') and sl0.get('function') == unit['harness']]
+        goals0 = [n0 for n0, d0, sl0 in props if d0.startswith('COVER ') and (sl0.get('function') == unit['harness'] or d0.startswith('COVER probe:'))]
         for n0 in goals0:
             cmd += ['--property', n0]
     cmd += ['--json-ui']
